@@ -3,6 +3,8 @@
 package symex
 
 import (
+	"crypto/sha256"
+	"encoding/binary"
 	"fmt"
 	"go/types"
 	"math/big"
@@ -108,7 +110,15 @@ func typeID(t types.Type) int64 {
 	if id, ok := typeIDs[k]; ok {
 		return id
 	}
-	id := int64(len(typeIDs) + 1)
+	// a stable id (a hash of the type's name), so that the verification conditions of a function do not depend on the
+	// order in which types were first met in the run; two types with the same id would be a soundness problem: checked
+	hs := sha256.Sum256([]byte(k))
+	id := 1000 + int64(binary.BigEndian.Uint32(hs[:4]))
+	for other, oid := range typeIDs {
+		if oid == id && other != k {
+			panic("type id collision between " + other + " and " + k)
+		}
+	}
 	typeIDs[k] = id
 	typeByID[id] = t
 	return id
